@@ -527,3 +527,73 @@ def _contains_head(d, head, arg):
 
 
 CONTRACTS.append(FrbCacheProtocol())
+
+
+# =================================================================================================
+# The image layer turns a numpy view of the displayed plane into the (first, last, count) bounds compute_fixed_resolution_buffer samples:
+# the nested helper slice_to_bound of BaseImageLayerState.get_sliced_data.  Pure integer arithmetic over slice.indices.
+from pyvc.values import OptInt as _OptInt, PSlice
+
+IMG = "glue/viewers/image/state.py"
+
+
+class SliceToBound(FnContract):
+    property_ids = ('C16',)
+    target = IMG + ":BaseImageLayerState.get_sliced_data.slice_to_bound"
+    title = ("for a view slice with a positive step that selects at least one pixel of an axis of the given size, the bounds are (first selected pixel, last selected pixel, "
+             "number of selected pixels): sampling them linearly visits exactly the pixels the slice selects")
+
+    def configs(self, tier):
+        m = 8 if tier == 'quick' else 16
+        return [dict(step=s) for s in ['None'] + list(range(1, m + 1))]
+
+    def inputs(self, cfg, P):
+        syms = {}
+        a = _OptInt(z3.Bool('start_is_none'), z3.Int('start'))
+        b = _OptInt(z3.Bool('stop_is_none'), z3.Int('stop'))
+        n = z3.Int('size')
+        syms.update({'start_is_none': a.is_none, 'start': a.val, 'stop_is_none': b.is_none, 'stop': b.val, 'size': n})
+        sl = PSlice(a, b, None if cfg['step'] == 'None' else cfg['step'])
+        return Inputs([sl, n], st=St(sl=sl, n=n), symbols=syms)
+
+    def _spec(self, cfg, st):
+        beg, end, step = S.slice_indices(st.sl, st.n)
+        return beg, end, step, S.range_len(beg, end, step)
+
+    def requires(self, cfg, st):
+        beg, end, step, count = self._spec(cfg, st)
+        return [('size>=0', st.n >= 0), ('the-view-selects-at-least-one-pixel', count >= 1)]
+
+    def ensures(self, cfg, st, result):
+        beg, end, step, count = self._spec(cfg, st)
+        if not (isinstance(result, tuple) and len(result) == 3):
+            return [('returns-(first,last,count)', False)]
+        return [('first-selected-pixel', result[0] == beg), ('last-selected-pixel', result[1] == beg + step * (count - 1)),
+                ('number-of-selected-pixels', result[2] == count)]
+
+    def native(self, cfg, val):
+        # the helper is nested in a method of a viewer state; the replay re-creates it from the function text of the tree under test
+        import ast as _ast
+        ft = self.ftext()
+        ns = {}
+        exec(compile(_ast.Module(body=[ft.node], type_ignores=[]), ft.relpath, 'exec'), ns)
+        f = ns['slice_to_bound']
+        start = None if val.get('start_is_none') else val.get('start', 0)
+        stop = None if val.get('stop_is_none') else val.get('stop', 0)
+        step = None if cfg['step'] == 'None' else cfg['step']
+        size = val.get('size', 0)
+        if size < 0:
+            return None
+        sel = list(range(size))[slice(start, stop, step)]
+        if not sel:
+            return None
+        got = f(slice(start, stop, step), size)
+        exp = (sel[0], sel[-1], len(sel))
+        return (tuple(got) == exp, "slice_to_bound(slice(%r, %r, %r), %r) = %r; the slice selects pixels %r ... %r (%d of them)" % (start, stop, step, size, got, sel[0], sel[-1], len(sel)))
+
+    def native_call(self, cfg, val):
+        return "slice_to_bound(slice(%r, %r, %r), %r)" % (None if val.get('start_is_none') else val.get('start', 0), None if val.get('stop_is_none') else val.get('stop', 0),
+                                                       None if cfg['step'] == 'None' else cfg['step'], val.get('size', 0))
+
+
+CONTRACTS.append(SliceToBound())
